@@ -92,3 +92,8 @@ impl vstd::std_specs::convert::FromSpecImpl<ResidualPolicy> for Policy {
 
 /// the determining-policy ids of a definite decision: the satisfied permits for Allow, the satisfied forbids for Deny
 pub open spec fn reason_set(r: Response) -> SSet<PolicyID> { if r.decision == Some(Decision::Allow) { r.true_permits@ } else { r.true_forbids@ } }
+/// ps is the policy-set view of the response: exactly its residual policies
+pub open spec fn is_policy_set_of(ps: PolicySet, residuals: Map<PolicyID, ResidualPolicy>) -> bool {
+    (forall|k: PolicyID| residuals.contains_key(k) ==> ps.links().contains_key(k) && is_residual_policy(#[trigger] ps.links()[k], residuals[k]))
+    && (forall|k: PolicyID| ps.links().contains_key(k) ==> residuals.contains_key(k))
+}
